@@ -326,6 +326,8 @@ func c16Matrix(r *fw.Rec, w, h int) {
 	var bm *gozxing.BitMatrix
 	var err error
 	var trace []string
+	var keptRow *gozxing.BitArray
+	var keptRowModel []bool
 	if rng.Bool() {
 		bm, err = gozxing.ParseBoolMapToBitMatrix(m.b)
 		trace = append(trace, "ParseBoolMap")
@@ -466,6 +468,8 @@ func c16Matrix(r *fw.Rec, w, h int) {
 			bm.SetRow(y2, row)
 			copy(m.b[y2], m.b[y1])
 			trace = append(trace, fmt.Sprintf("SetRow(%d,GetRow(%d))", y2, y1))
+			// the row handed out is the caller's copy: it keeps these bits whatever happens to the matrix
+			keptRow, keptRowModel = row, append([]bool{}, m.b[y1]...)
 		case 11, 12:
 			bm.Rotate180()
 			m = m.rot180()
@@ -511,6 +515,18 @@ func c16Matrix(r *fw.Rec, w, h int) {
 		if s := checkMatrix(bm, m, rng); s != "" {
 			fail(s)
 			return
+		}
+		if keptRow != nil {
+			bad := keptRow.GetSize() != len(keptRowModel)
+			for i := 0; !bad && i < len(keptRowModel); i++ {
+				bad = keptRow.Get(i) != keptRowModel[i]
+			}
+			if bad {
+				trace = append(trace, "(row returned by an earlier GetRow re-read)")
+				fail("a row returned by an earlier GetRow(y, nil) changed through later operations on the matrix")
+				return
+			}
+			r.Tally("rows_from_getrow_rechecked_after_later_operations")
 		}
 		r.Evals(1)
 	}
